@@ -43,7 +43,17 @@ def opt_hx(h):
 
 
 def prelude(run, broken):
-    fails = vlib.standard_prelude(run, UNITS, AREA)
+    # vlib.forbidden_scan walks coq/ while concurrent checks create and delete coq/run/*.v: a file can vanish between
+    # listing and opening.  Retry the prelude (it is idempotent); a persistent failure still propagates (fail closed).
+    import time
+    for attempt in range(8):
+        try:
+            fails = vlib.standard_prelude(run, UNITS, AREA)
+            break
+        except FileNotFoundError:
+            if attempt == 7:
+                raise
+            time.sleep(1.5)
     if "forbidden" in fails:
         broken.append("forbidden declarations in the development: %s" % fails["forbidden"])
     if "go2coq" in fails:
@@ -58,7 +68,7 @@ def run_harness(run, mode, broken, timeout=1800):
     if rc != 0:
         broken.append("harness seg %s failed rc=%s: %s" % (mode, rc, err[-400:]))
         return []
-    return [json.loads(l) for l in out.splitlines() if l.strip()]
+    return [json.loads(l) for l in out.split("\n") if l.strip()]
 
 
 def dec_obs(d):
